@@ -8,7 +8,9 @@ PID = "C14"
 RULE = ("Program text from three generators: (a) token-level mutations (delete / duplicate / swap / replace by a dictionary token of "
         "every lexer keyword, directive, qualifier and punctuation / splice two programs) of valid programs -- the repository's own "
         "tests/**/*.dl that need no preprocessor (<= 6 KB) and dlgen programs; (b) byte-level mutations (bit flips, truncation, NUL and "
-        "high bytes, very long identifiers and numbers, deep nesting); (c) near-valid programs: dlgen programs with one injected "
+        "high bytes, very long identifiers and numbers, deep nesting) and structured excursions (one quoted string grown to 300 / 5 000 / "
+        "70 000 characters, one numeric literal replaced by a boundary form: 40-digit numbers, floats beyond the float range or below "
+        "the smallest float, 2^31, 2^32, 2^64; line markers `#line n \"f\"` / `# n \"f\" 1|2` are dictionary tokens); (c) near-valid programs: dlgen programs with one injected "
         "semantic defect plus token mutations. Each input runs the front end (`--show=transformed-ram`: parse, semantic checks, all "
         "AST passes, AST->RAM, all RAM passes; no evaluation) under one of {default, --magic-transform=*, -t explain, -p <file>, "
         "--disable-transformers=...}, and in 1 of 4 cases also the full evaluation. Oracle: exit status 0 or 1 (1 with a "
@@ -24,7 +26,8 @@ DICT = [".decl", ".type", ".input", ".output", ".printsize", ".limitsize", ".com
         "lnot", "nil", "count", "sum", "min", "max", "mean", "range", "cat", "ord", "strlen", "substr", "to_number", "to_string", "to_float",
         "to_unsigned", "match", "contains", "as", "autoinc", "true", "false", "number", "symbol", "unsigned", "float", "inline", "no_inline",
         "magic", "no_magic", "brie", "btree", "btree_delete", "eqrel", "overridable", "choice-domain", "stateful", "debug_delta", "IO", "x", "r0",
-        "0", "1", "-1", "2147483648", "4294967296", "0x7fffffff", "0b1", "1.5", "\"a\"", "\"", "//", "/*", "*/", "\n", "#"]
+        "0", "1", "-1", "2147483648", "4294967296", "0x7fffffff", "0b1", "1.5", "\"a\"", "\"", "//", "/*", "*/", "\n", "#",
+        "\n#line 7 \"f.dl\"\n", "\n# 3 \"g.dl\" 1\n", "\n# 9 \"f.dl\" 2\n"]
 TOK = re.compile(r'"(?:[^"\\]|\\.)*"|\.[A-Za-z_]+|[A-Za-z_][A-Za-z_0-9]*|[0-9]+(?:\.[0-9]+)?|:-|<=|>=|!=|<:|\s+|.', re.S)
 VARIANTS = [[], ["--magic-transform=*"], ["-t", "explain"], ["-p", "prof.json"], ["--disable-transformers=RemoveRedundantRelationsTransformer"],
             ["-j4"], ["--magic-transform=*", "-t", "explain"]]
@@ -77,7 +80,35 @@ def mutate_tokens(ch, text, n):
     return "".join(toks)
 
 
+NUM_FORMS = ["9" * 40, "9" * 40 + ".5", "0." + "0" * 50 + "1", "4294967296", "2147483648", "-2147483649", "18446744073709551616",
+             "340282350000000000000000000000000000000.0", "3402823500000000000000000000000000000000.0", "0x100000000", "0b" + "1" * 33]
+
+
+def mutate_structured(ch, text):
+    """grow one quoted string to thousands of characters, or replace one numeric literal by a boundary form"""
+    import re as _r
+    if ch.bool(0.5):
+        qs = [m for m in _r.finditer(r'"[^"\n]*"', text)]
+        if qs:
+            m = ch.choice(qs)
+            k = ch.choice([300, 5000, 70000])
+            return text[:m.end() - 1] + "a" * k + text[m.end() - 1:]
+    ns = [m for m in _r.finditer(r'(?<![A-Za-z_0-9.])[0-9]+(\.[0-9]+)?(?![A-Za-z_0-9.])', text)]
+    fl = [m for m in ns if "." in m.group(0)]
+    if fl and ch.bool(0.6):
+        # a float literal (float context) beyond the float range / below the smallest float
+        m = ch.choice(fl)
+        return text[:m.start()] + ch.choice(["3402823500000000000000000000000000000000.0", "1" + "0" * 45 + ".5", "0." + "0" * 50 + "1",
+                                              "9" * 39 + ".0"]) + text[m.end():]
+    if ns:
+        m = ch.choice(ns)
+        return text[:m.start()] + ch.choice(NUM_FORMS) + text[m.end():]
+    return text
+
+
 def mutate_bytes(ch, text, n):
+    if ch.bool(0.15):
+        text = mutate_structured(ch, text)
     b = bytearray(text.encode("utf-8", "surrogateescape"))
     for _ in range(n):
         k = ch.int(0, 6)
@@ -120,6 +151,8 @@ def gen(ch):
             text = mutate_bytes(ch, text, ch.int(1, 3))
         else:
             text = mutate_tokens(ch, text, ch.int(1, 4))
+            if ch.bool(0.12):
+                text = mutate_structured(ch, text)
     else:
         P = dlgen.generate(ch, dlgen.Feat())
         if kind == "near_valid":
@@ -127,6 +160,8 @@ def gen(ch):
             c13.inject(P, ch)
         text, _ = dlgen.to_souffle(P)
         text = mutate_tokens(ch, text, ch.int(0 if kind == "near_valid" else 1, 3))
+        if ch.bool(0.15):
+            text = mutate_structured(ch, text)
         origin = "dlgen"
     variant = ch.choice(VARIANTS)
     return {"text": text, "variant": variant, "kind": kind, "origin": origin, "full": ch.bool(0.25)}
